@@ -111,7 +111,8 @@ def run(ctx):
             (ctx.harness(["-seed", ctx.seed + 7919, "-n", n_racy, "-maxops", maxops, "-racy"]) or []) + \
             (ctx.harness(["-seed", ctx.seed + 104729, "-n", n_sync // 2, "-maxops", maxops, "-reconciler"]) or []) + \
             (ctx.harness(["-seed", ctx.seed + 15485863, "-n", 6 if ctx.tier == "quick" else 60, "-maxops", maxops,
-                          "-bigfirst", 1500]) or [])
+                          "-bigfirst", 1500]) or []) + \
+            (ctx.harness(["-seed", ctx.seed + 67867967, "-n", 4 if ctx.tier == "quick" else 40, "-idlefamily"]) or [])
     if not getattr(ctx, "harness_ok", False):
         ctx.broken("harness does not build against the current tree", detail="\n".join(ctx.build_errors))
 
@@ -165,7 +166,9 @@ def run(ctx):
         **dcov,
         "evaluations": len(lines) + len(dlines) + len(plines),
         "distinct_nontrivial": nontrivial,
-        "rule": "schedules of send/release/cancel over the real EventLoop (sync: model equality + judge; racy: judge only; reconciler: "
+        "rule": "schedules of send/release/cancel over the real EventLoop, a quarter of them with an EMPTY start-up batch (sync: model equality + judge; racy: judge only; "
+                "idlefamily: start-up batch or in-flight burst of 1024..1100 events, then 3-5 events each offered only after the handler was "
+                "observed idle, bounded wait - clause idle_implies_empty_next; reconciler: "
                 "events delivered through the real controller.Reconciler as upserts/deletes, identity re-read from the event objects); "
                 "delivery: 1-3 real Reconcilers (filter / found / NotFound / Get error) parked behind a loop whose start-up is stalled "
                 "(one case 6 s in quick, up to 20 s in thorough), with and without cancellation, model equality + judge; prepare: real "
@@ -174,6 +177,9 @@ def run(ctx):
         "samples": model_in[:3] + judge_in[-2:],
         "traces_validated_against_impl": len(model_in) - diffs + d_ok,
         "correspondence_diffs": diffs,
+        "schedules_with_empty_startup_batch": sum(1 for j in judge_in if j.startswith("first=- ")),
+        "idle_family_cases": sum(1 for j in judge_in if " stuck=" in j),
+        "max_startup_batch": max((len(j.split(" ")[0].split(",")) for j in judge_in), default=0),
         "inconclusive": dict(inconclusive),
         "distinct_cases": distinct,
         "ops_histogram": dict(kinds),
